@@ -428,6 +428,61 @@ def check_cell(cls, pos, term_name, inner, par):
     return None
 
 
+# ---- (c) DDL builders: the three entry points agree and the class's identifier quote is used ----------------------------------------
+
+
+def ddl_cases():
+    for cls in CTXS:
+        for name in ("create_columns", "create_as_select", "create_temporary_unique", "drop", "drop_if_exists", "drop_schema_table"):
+            yield {"mode": "ddl", "cls": cls, "name": name}
+
+
+def build_ddl(cls, name):
+    import pypika_tortoise as P
+
+    Q = prog.query_cls(cls)
+    t = P.Table("t")
+    if name == "create_columns":
+        return Q.create_table("Na me").columns(P.Column("a", "INT"), P.Column("b c", "VARCHAR(10)", nullable=False, default="x")).primary_key("a")
+    if name == "create_as_select":
+        return Q.create_table("n").as_select(Q.from_(t).select(t.a, t.b).where(t.a == "v"))
+    if name == "create_temporary_unique":
+        return Q.create_table("n").temporary().if_not_exists().columns(P.Column("a", "INT"), P.Column("b", "INT")).unique("a", "b")
+    if name == "drop":
+        return Q.drop_table("Na me")
+    if name == "drop_if_exists":
+        return Q.drop_table(P.Table("n")).if_exists()
+    if name == "drop_schema_table":
+        return Q.drop_table(P.Table("n", schema="s c"))
+    raise HarnessError(name)
+
+
+def check_ddl(case):
+    cls = case["cls"]
+    try:
+        q = build_ddl(cls, case["name"])
+        sql = q.get_sql(prog.sql_context(cls))
+        forms = {"str": str(q)}
+        try:
+            forms["noarg"] = q.get_sql()
+        except TypeError:
+            pass
+    except Exception as e:
+        return [(mksig("ddl", cls, "raises", type(e).__name__), repr(e))]
+    out = []
+    for name, text in forms.items():
+        if text != sql:
+            out.append((mksig("ddl", "entry_points", type(q).__name__, name), "%s of %s gives %r but get_sql(%s context) gives %r" % (name, type(q).__name__, text, cls, sql)))
+            break
+    qc = "`" if cls == "mysql" else '"'
+    for text in [sql] + list(forms.values()):
+        bad = [t for t in lex.lex(text, cls) if t.kind == "qid" and qc not in t.flags]
+        if bad and not out:
+            out.append((mksig("ddl", cls, "quote", type(q).__name__), "identifier %r is not quoted with %s in %r" % (bad[0].text, qc, text)))
+            break
+    return out
+
+
 def cells():
     for cls in CTXS:
         for pos in POSITIONS:
@@ -440,6 +495,8 @@ def cells():
 
 
 def check_case(case):
+    if case.get("mode") == "ddl":
+        return check_ddl(case)
     if case.get("mode") == "cell":
         r = check_cell(case["cls"], case["pos"], case["term"], case["inner"], case["par"])
         if r is None:
@@ -455,6 +512,8 @@ def cell_sig(cls, pos, term, inner, kind):
 
 def valid_case(case):
     try:
+        if case.get("mode") == "ddl":
+            return case in list(ddl_cases())
         if case.get("mode") == "cell":
             return case["cls"] in CTXS and case["pos"] in POSITIONS and case["term"] in TERMS and case["inner"] in ("inherit", "generic") and case["par"] in (False, True)
         prog.build_program(dict(case["program"], cls="generic"), force_cls="generic")
@@ -464,7 +523,7 @@ def valid_case(case):
 
 
 def shards(tier, sd):
-    out = [("matrix", tier, c) for c in CTXS]
+    out = [("matrix", tier, c) for c in CTXS] + [("ddl", tier, 0)]
     n = 6 if tier == "quick" else 24
     out += [("neutral", tier, sd * 1000 + k) for k in range(n)]
     return out
@@ -473,6 +532,12 @@ def shards(tier, sd):
 def run_shard(shard):
     kind, tier, arg = shard
     col = Collector()
+    if kind == "ddl":
+        for case in ddl_cases():
+            col.case(case, True, classes=("ddl:" + case["name"],))
+            for sig, detail in check_ddl(case):
+                col.violation(sig, case, detail)
+        return col
     if kind == "matrix":
         for cls, pos, term_name, inner, par in cells():
             if cls != arg:
